@@ -277,7 +277,7 @@ def run(rep, tier="quick", srcdir=None, only=None):
 
 
 MANIFEST = {
-    "technique": "atomic-site census + interval abstract interpretation of the fast paths + path-sensitive must-pass rules on the slow path (LLVM IR)",
+    "technique": "atomic-site census + interval abstract interpretation of the fast paths + path-sensitive must-pass rules on the slow path (LLVM IR) + must-post rule on the slow signal path + the deadline decoder shared with C12",
     "level": "all writers of dsema_value are classified and shape-checked, the fast/slow split is decided by interval entailment on the new value, and "
              "every return path of the slow path is checked for the permit-conservation obligations (timeout only after undo, success only after a "
              "kernel wait, raced signal drained); holds for every interleaving because each obligation is per atomic step / per path",
